@@ -46,6 +46,7 @@ class Validator(PySHACLRunType):
         options: Optional[Dict[str, Any]] = None,
         **kwargs,
     ):
+        self._forget_cached_graph_contents()
         options = options or {}
         self._load_default_options(options)
         self.options = options  # type: dict
